@@ -2,7 +2,6 @@ package main
 
 import (
 	"fmt"
-	"os"
 	"sort"
 	"strconv"
 	"strings"
@@ -422,13 +421,7 @@ func (c *Ctx) reuseRealCalculator(part int, note func(bad, undec string)) {
 		if undecided(want) {
 			// the value depends on a function of another module applied to something that is no numeral (the
 			// conversion of 'ab' to a number …): the member is outside the finite model, by construction of the family
-			if os.Getenv("REUSE_DEBUG") != "" {
-				fmt.Fprintf(os.Stderr, "skipped %q: %s\n", e, want)
-			}
 			continue
-		}
-		if os.Getenv("REUSE_DEBUG") != "" {
-			fmt.Fprintf(os.Stderr, "member %q: %s\n", e, want)
 		}
 		calc, why := fresh()
 		if why != "" {
